@@ -64,13 +64,16 @@ def use_stmt(name, role):
 
 # how the identifier is reached from the feature's context: directly, or only from a scope nested
 # in it (then the identifier is NOT a symbol of the scope that holds the construct)
-VIAS = ["direct", "lambda", "genexp", "def"]
-VIA_ROLES = ("global", "global_from_function")
+VIAS = ["direct", "lambda", "genexp", "def", "lambda_shadow"]
+VIA_ROLES = ("global", "global_from_function", "local", "parameter")
 
 
 def via_expr(name, via):
     if via == "lambda":
         return "(lambda: %s)()" % name
+    if via == "lambda_shadow":
+        # read in a lambda whose body also holds an inner lambda with a PARAMETER of the same spelling
+        return "(lambda: [(lambda %s: %s)(0), %s][1])()" % (name, name, name)
     if via == "genexp":
         return "list(%s for qq in [0])[0]" % name
     if via == "def":
